@@ -90,6 +90,7 @@ fn main() {
                 known,
                 cur_file: a.get("cur-file").cloned(),
                 max_found: num("max-found", 8) as usize,
+                stop_file: a.get("stop-file").cloned(),
             };
             if let Some(f) = a.get("out").cloned() {
                 driver::start_hang_monitor(move |idx, var| {
